@@ -16,6 +16,7 @@ import PoetryVerif.Proofs.VRangeInterU
 import PoetryVerif.Proofs.VRangeDiffU
 import PoetryVerif.Proofs.VRangeFinalSet
 import PoetryVerif.Proofs.VRangeInterAt
+import PoetryVerif.Proofs.VRangePairwise
 
 set_option linter.unusedSimpArgs false
 set_option linter.unusedVariables false
@@ -777,6 +778,29 @@ theorem halfopen_dev_union_of_exact (l : List RC) (hm : ∀ x ∈ l, x.HalfOpenD
   obtain ⟨res', h1', _, _, h4⟩ := unionOfFlat_at p hp l (inv p)
   rw [h1] at h1'; injection h1' with h1'; subst h1'
   exact h4
+
+/-- **the intersect walk of a union does not depend on the NUMBER of members**: for a sorted union of range members
+against any well-formed constraint over range members, of any lengths, `VersionUnion.intersect` is `VersionUnion.of`
+applied to exactly the pairwise non-empty member intersections, in order (`pairwiseParts`: ours outer, theirs
+inner) — the staircase the merge walk visits loses nothing, the pairs it skips are empty.  (A shortcut that treats
+long unions differently — seeded change C05-4, a count threshold — departs from this equation.) -/
+theorem intersect_members_eq_pairwise (rs : List RC) (b : VC) (hrs : ∀ c ∈ rs, RngMember c) (hs : SortedRC rs)
+    (hb : b.WF) (hbm : ∀ c ∈ b.flatten, RngMember c) :
+    VC.intersect (.union rs) b = VC.unionOf (pairwiseParts rs b.flatten) := by
+  have h := unionIntersectLoop_eq_pairwise (rs.length + b.flatten.length + 1) rs b.flatten [] (by omega) hrs hbm hs
+    (SortedRC_flatten_of_WF b hb)
+  simp only [VC.intersect, h, List.nil_append, bind, Except.bind]
+
+/-- nine ranges against nine ranges: the walk returns the nine diagonal intersections -/
+example : let R : Nat → Nat → RC := fun a b =>
+      .rng ⟨some (Version.mk' 0 [a] none none none none), some (Version.mk' 0 [b] none none none none), true, false⟩
+    let ours := [R 0 2, R 10 12, R 20 22, R 30 32, R 40 42, R 50 52, R 60 62, R 70 72, R 80 82]
+    let theirs := [R 1 3, R 11 13, R 21 23, R 31 33, R 41 43, R 51 53, R 61 63, R 71 73, R 81 83]
+    VC.unionIntersectLoop 19 ours theirs [] =
+      .ok [.single (R 1 2), .single (R 11 12), .single (R 21 22), .single (R 31 32), .single (R 41 42),
+           .single (R 51 52), .single (R 61 62), .single (R 71 72), .single (R 81 82)] := by
+  intro R ours theirs
+  decide +kernel
 
 /-- the complement, for half-open ranges with a STABLE inclusive lower end: `VersionUnion.of` merges the adjacent
 `>=2,<3` and `>=3,<4` (`^2 || ^3`) into `>=2,<4`, which admits `3.dev0`; neither range admits it (`<3` ends at
